@@ -2,32 +2,34 @@
 (* Validation of recorded concurrent runs of a generated container (C20).  Events carry    *)
 (* one process-wide sequence number taken inside the fixture constructor / parameter       *)
 (* function (they run under the runtime's per-entry lock) and at operation return:         *)
-(*   cfg   : which constructors belong to shared / contextual services, which functions    *)
-(*           back parameters (one run = one container)                                     *)
+(*   cfg   : which constructors belong to shared / contextual / non_shared services, which  *)
+(*           functions back parameters (one run = one container)                           *)
 (*   ctor  : a fixture constructor ran (made, serial)                                      *)
 (*   fn    : a parameter function ran                                                      *)
 (*   ret   : an operation returned; insts = the <<made, serial>> pairs reachable from its  *)
-(*           result; ctx = its context (0: a plain Get, which has a bag of its own)        *)
+(*           result; ctx = its context (0: a plain Get, which has a bag of its own);        *)
+(*           root = the <<made, serial>> of the result itself (<<"", 0>> if not an object)  *)
 (* The invariants are those ContainerConc.tla establishes for the design.                  *)
 EXTENDS Naturals, Sequences, FiniteSets, TLC, Json
 
-VARIABLES l, sharedMade, ctxMade, paramFns, ctorCount, fnCount, sharedInst, instCtx
+VARIABLES l, sharedMade, ctxMade, nsMade, paramFns, ctorCount, fnCount, sharedInst, instCtx, nsRoots
 Trace == ndJsonDeserialize("trace.ndjson")
 ToSetS(s) == {s[i] : i \in 1..Len(s)}
 Bump(f, k) == [x \in (DOMAIN f) \cup {k} |-> IF x = k THEN (IF k \in DOMAIN f THEN f[k] ELSE 0) + 1 ELSE f[x]]
 Lookup(f, k, dflt) == IF k \in DOMAIN f THEN f[k] ELSE dflt
 Put(f, k, v) == [x \in (DOMAIN f) \cup {k} |-> IF x = k THEN v ELSE f[x]]
 
-TInit == /\ l = 1 /\ sharedMade = {} /\ ctxMade = {} /\ paramFns = {} /\ ctorCount = <<>> /\ fnCount = <<>>
+TInit == /\ l = 1 /\ sharedMade = {} /\ ctxMade = {} /\ nsMade = {} /\ nsRoots = {} /\ paramFns = {} /\ ctorCount = <<>> /\ fnCount = <<>>
          /\ sharedInst = <<>> /\ instCtx = <<>> /\ TLCSet(1, 0)
 
-Cfg(e) == /\ sharedMade' = ToSetS(e.shared) /\ ctxMade' = ToSetS(e.contextual) /\ paramFns' = ToSetS(e.fns)
+Cfg(e) == /\ sharedMade' = ToSetS(e.shared) /\ ctxMade' = ToSetS(e.contextual) /\ nsMade' = ToSetS(e.ns) /\ nsRoots' = {} /\ paramFns' = ToSetS(e.fns)
           /\ ctorCount' = <<>> /\ fnCount' = <<>> /\ sharedInst' = <<>> /\ instCtx' = <<>>
-Ctor(e) == ctorCount' = Bump(ctorCount, e.made) /\ UNCHANGED <<sharedMade, ctxMade, paramFns, fnCount, sharedInst, instCtx>>
-Fn(e)   == fnCount' = Bump(fnCount, e.name) /\ UNCHANGED <<sharedMade, ctxMade, paramFns, ctorCount, sharedInst, instCtx>>
+Ctor(e) == ctorCount' = Bump(ctorCount, e.made) /\ UNCHANGED <<sharedMade, ctxMade, nsMade, nsRoots, paramFns, fnCount, sharedInst, instCtx>>
+Fn(e)   == fnCount' = Bump(fnCount, e.name) /\ UNCHANGED <<sharedMade, ctxMade, nsMade, nsRoots, paramFns, ctorCount, sharedInst, instCtx>>
 
 (* a returned result: shared instances must be THE instance, contextual instances must     *)
-(* belong to this operation's context (or, for a plain Get, to no other operation)         *)
+(* belong to this operation's context (or, for a plain Get, to no other operation); an     *)
+(* operation that asks for a non_shared service gets an instance no operation got before   *)
 Ret(e) ==
   LET pairs == ToSetS(e.insts)
       key == IF e.ctx = 0 THEN "op" \o ToString(e.seq) ELSE "ctx" \o ToString(e.ctx) IN
@@ -37,7 +39,9 @@ Ret(e) ==
                        Lookup(sharedInst, m, (CHOOSE p \in pairs : p[1] = m)[2])]
   /\ instCtx' = [s \in (DOMAIN instCtx) \cup {ToString(p[2]) : p \in {q \in pairs : q[1] \in ctxMade}} |->
                        Lookup(instCtx, s, key)]
-  /\ UNCHANGED <<sharedMade, ctxMade, paramFns, ctorCount, fnCount>>
+  /\ (e.root[1] \in nsMade => e.root[2] \notin nsRoots)
+  /\ nsRoots' = IF e.root[1] \in nsMade THEN nsRoots \cup {e.root[2]} ELSE nsRoots
+  /\ UNCHANGED <<sharedMade, ctxMade, nsMade, paramFns, ctorCount, fnCount>>
 
 TNext == /\ l <= Len(Trace)
          /\ LET e == Trace[l] IN
